@@ -128,7 +128,10 @@ def strategy():
     return st.fixed_dictionaries({
         'classes': st.lists(cls, min_size=2, max_size=6),
         'handlers': st.lists(st.integers(0, 23), min_size=1, max_size=6),
-        'ops': worldops.chunked(op, 40)})
+        'ops': worldops.chunked(op, 40),
+        # population scale: 0, or the number of copies each generated handler is blown up to ("add" / "remove" then
+        # register / remove the copies one at a time, dispatching after each)
+        'amp': worldops.size_amp()})
 
 
 class UserError(Exception):
@@ -394,16 +397,23 @@ class Run:
         if not handler_classes:
             self.flags['no_handler_class'] += 1
             return
-        self.hcls = [handler_classes[k % 6 % len(handler_classes)] for k in self.case['handlers']]
+        specs = list(self.case['handlers'])
+        self.nbase = len(specs)
+        self.copies = 1
+        if self.case.get('amp'):
+            self.copies = self.case['amp']
+            specs = specs * self.copies
+            self.flags['amplified_population'] += 1
+        self.hcls = [handler_classes[k % 6 % len(handler_classes)] for k in specs]
         self.handlers = []
         for ix, ci in enumerate(self.hcls):
             h = self.classes[ci]()
             h._run = self
             h.ix = ix
-            h.truth = (self.case['handlers'][ix] % 6 + ix) % 3 != 0
+            h.truth = (specs[ix] % 6 + ix) % 3 != 0
             if not h.truth:
                 self.flags['falsy_handler'] += 1
-            h.eqmode = (0, 0, 1, 2)[self.case['handlers'][ix] // 6 % 4]
+            h.eqmode = (0, 0, 1, 2)[specs[ix] // 6 % 4]
             self.handlers.append(h)
         self.strangers = [self.classes[handler_classes[0]]() for _ in range(2)]
         self.strangers[1].eqmode = 1        # a stranger that EQUALS the value-equal handlers: still a stranger
@@ -416,7 +426,17 @@ class Run:
         self.check_is_handler()
         for self.step_ix, op in enumerate(self.case['ops']):
             kind = op[0]
-            if kind == 'add':
+            if kind in ('add', 'remove') and self.copies > 1:
+                # wind / unwind: the copies are registered (removed) one at a time with a dispatch of one of their
+                # events after each - the listener count of that event passes through every value on the way
+                base = op[1] % self.nbase
+                exp = self.expected[self.hcls[base]]
+                ev = sorted(exp)[op[1] % len(exp)] if exp else None
+                for c in range(self.copies):
+                    (self.do_add if kind == 'add' else self.do_remove)(base + c * self.nbase)
+                    if ev is not None and not self.stack:
+                        self.do_dispatch(ev, (c,), {})
+            elif kind == 'add':
                 self.do_add(op[1])
             elif kind == 'remove':
                 self.do_remove(op[1])
